@@ -252,7 +252,7 @@ func (ps *parser) fail(f string, a ...interface{}) {
 	panic(parseErr(fmt.Sprintf(f, a...) + fmt.Sprintf(" at offset %d", ps.peek().pos)))
 }
 func (ps *parser) peek() stoken { return ps.toks[ps.p] }
-func (ps *parser) next() stoken  { t := ps.toks[ps.p]; ps.p++; return t }
+func (ps *parser) next() stoken { t := ps.toks[ps.p]; ps.p++; return t }
 func (ps *parser) isOp(s string) bool {
 	t := ps.peek()
 	return t.kind == tOp && t.text == s
